@@ -1,7 +1,7 @@
 (* C13 — Pauli decomposition reconstructs the matrix, with one index convention (Model/Decomp.v).
    Every vector of the model is 2^n times the source's (integer numerators; the source halves at each level).
    T p A = tr(M(p) A).  Proved for every n and every matrix over Z[i]; floats are not modelled. *)
-From PauLie Require Import Pauli Matrix Graph Decomp DecompT.
+From PauLie Require Import Pauli Matrix Graph Decomp DecompT ButterflyT.
 
 (* the entry the string P itself looks up (index P = ba2int of its bits) is tr(M(P) A)   [= 2^n * w[P]] *)
 Theorem C13_coeff : forall p A, nth (index p) (decompose (length p) A) g0 = T p A.
@@ -13,6 +13,15 @@ Theorem C13_reconstruct : forall n A r c, length r = n -> length c = n ->
   gsum (all_strs n) (fun p => gmul (nth (index p) (decompose n A) g0) (M p r c)) = gmul (two_pow n) (A r c).
 Proof. exact reconstruct_from_weights. Qed.
 Print Assumptions C13_reconstruct.
+
+(* the source's in-place strided loops (for h = 1, 4, 16, ... over blocks of 4h entries; h = 1, 2, 4, ... over blocks
+   of 2h entries for the diagonal variant) compute exactly the block recursions the theorems above and below are about *)
+Theorem C13_iterative : forall n A, decompose_iter n A = decompose n A.
+Proof. exact decompose_iter_eq. Qed.
+Print Assumptions C13_iterative.
+Theorem C13_iterative_diag : forall n d, decompose_diag_iter n d = decompose_diag n d.
+Proof. exact decompose_diag_iter_eq. Qed.
+Print Assumptions C13_iterative_diag.
 
 (* the diagonal variant agrees with the general one on diagonal matrices; strings with an X/Y letter weigh 0 *)
 Theorem C13_diag : forall p d k, dindex p = Some k -> nth k (decompose_diag (length p) d) g0 = T p (diagm d).
